@@ -14,6 +14,7 @@ INNER = {
     "In2": ("H : a", ("struct", [("a", ("scalar", "H"))], False)),
     "InP": ("B : a\nI : b", ("struct", [("a", ("scalar", "B")), ("b", ("scalar", "I"))], True)),
     "In3": ("In2 : u\nq : v", ("struct", [("u", ("struct", [("a", ("scalar", "H"))], False)), ("v", ("scalar", "q"))], False)),
+    "InPtr": ("P : p\nI : x", ("struct", [("p", ("scalar", "P")), ("x", ("scalar", "I"))], False)),
 }
 UNION = {"U1": ("B : a\nI : b", ("union", [("a", ("scalar", "B")), ("b", ("scalar", "I"))]))}
 
@@ -26,7 +27,7 @@ def kinds(full):
         K.append(("sc>:" + c, "%s :> {n}" % c, ("scalar", c)))
     for c, n in (("B", 3), ("H", 2), ("I", 3), ("s", 5), ("c", 2)) + ((("q", 2), ("H", 3)) if full else ()):
         K.append(("arr:%s*%d" % (c, n), "%s*%d : {n}" % (c, n), ("array", ("scalar", c), n)))
-    for nm in ("In1", "In2", "InP", "In3"):
+    for nm in ("In1", "In2", "InP", "In3", "InPtr"):
         K.append(("st:" + nm, "%s : {n}" % nm, INNER[nm][1]))
     K.append(("starr:In2*2", "In2*2 : {n}", ("array", INNER["In2"][1], 2)))
     K.append(("starr:In1*2", "In1*2 : {n}", ("array", INNER["In1"][1], 2)))
@@ -41,6 +42,7 @@ def kinds(full):
 VARKINDS = [
     ("var:s~", "s*~ : {n}"), ("var:s~B", "s*~B : {n}"), ("var:H~H", "H*~H : {n}"), ("var:c~", "c*~ : {n}"),
     ("var:uleb", "B*%leb128 : {n}"), ("var:sleb", "b*%leb128 : {n}"), ("var:bound", "B : {n}n\ns*.{n}n : {n}"),
+    ("var:s~H>", "s*~H :> {n}"), ("var:H~I>", "H*~I :> {n}"), ("var:bound>", "H :> {n}n\ns*.{n}n : {n}"),
 ]
 
 
@@ -312,6 +314,12 @@ def var_bytes(kind):
         return b"\xc0\xbb\x78", {"v": -123456}, 1
     if kind == "var:bound":
         return b"\x03xyz", {"vn": 3, "v": b"xyz"}, 1
+    if kind == "var:s~H>":
+        return b"\x00\x04wxyz", {"v": b"wxyz"}, 1
+    if kind == "var:H~I>":
+        return struct.pack(">IHH", 2, 0x1122, 0x3344), {"v": (0x1122, 0x3344)}, 4
+    if kind == "var:bound>":
+        return b"\x00\x03xyz", {"vn": 3, "v": b"xyz"}, 2
     raise ValueError(kind)
 
 
@@ -373,7 +381,7 @@ def definitions(tier):
     out = []
     for n in range(1, maxf + 1):
         pool = K if n <= 2 else (K if (full and n == 3) else [k for k in K if k[0] in (
-            "sc:B", "sc:H", "sc:I", "sc:q", "sc:P", "sc:d", "arr:B*3", "st:In1", "st:InP", "bits:B3/5", "un:U1", "starr:In2*2")])
+            "sc:B", "sc:H", "sc:I", "sc:q", "sc:P", "sc:d", "arr:B*3", "st:In1", "st:InP", "st:InPtr", "bits:B3/5", "un:U1", "starr:In2*2")])
         for fs in itertools.product(pool, repeat=n):
             for packed in (False, True):
                 for psize in (32, 64):
